@@ -122,6 +122,32 @@ fn seq_decode(mut idx: u64, n: u64, maxlen: u32) -> Vec<usize> {
     Vec::new()
 }
 
+/// Every function name (of any evaluator) called with 0..4 arguments drawn from a list of sizes that matter for
+/// integer products and exponents: the arity a name is documented with is not the only one a parser may accept.
+fn arity_cases() -> &'static Vec<String> {
+    static CELL: OnceLock<Vec<String>> = OnceLock::new();
+    CELL.get_or_init(|| {
+        let args = ["@", "2", "9000000000", "4000000007", "65", "0", "200", "0.5"];
+        let mut v = Vec::new();
+        for f in vocab::all_func_names() {
+            v.push(format!("{}()", f));
+            for a in args {
+                v.push(format!("{}({})", f, a));
+                for b in args {
+                    v.push(format!("{}({},{})", f, a, b));
+                    for c in args {
+                        v.push(format!("{}({},{},{})", f, a, b, c));
+                    }
+                }
+            }
+            for quad in [["@", "@", "@", "@"], ["3", "200", "10000000019", "2"], ["@", "2", "9000000000", "7"], ["7", "65", "4294967296", "@"]] {
+                v.push(format!("{}({})", f, quad.join(",")));
+            }
+        }
+        v
+    })
+}
+
 /// The keyword neighbourhood: every keyword with prefixes, one char deleted / substituted, with call suffixes.
 fn keyword_neighbourhood() -> &'static Vec<String> {
     static CELL: OnceLock<Vec<String>> = OnceLock::new();
@@ -203,7 +229,7 @@ impl Prop for C01Prop {
         "C01"
     }
     fn rule(&self) -> String {
-        "Cases are (evaluator, input string, placeholder). Enumerated exhaustively: every sequence of <=3 pieces over each evaluator's complete vocabulary (+literal pool, foreign tokens, the code points next to every non-ASCII vocabulary character), <=4 (quick) / <=5 (thorough) over one representative per token class, every string of <=3 (quick) / <=4 (thorough) chars over the keyword alphabet, the keyword neighbourhood (prefixes, one character deleted / substituted / inserted, call suffixes), nesting families up to 256 chars; then aggregate stress lists (2..60 arguments repeating a few values that are equal or adjacent in one representation only: 2^53 / 2^53+1 / 2^53.0, 0 / 0.0 / -0.0 / NaN, 2 / 2.00), random well-formed trees over boundary operands, token-level near-miss mutants and raw Unicode strings. Inputs containing '@' are run against the placeholder pool. distinct = distinct (evaluator,input,placeholder); non-trivial = the reference lexer yields >=2 tokens or the evaluator returned Ok. Oracle: the call returns Ok or Err (no panic; a process abort is detected by the supervisor).".into()
+        "Cases are (evaluator, input string, placeholder). Enumerated exhaustively: every sequence of <=3 pieces over each evaluator's complete vocabulary (+literal pool, foreign tokens, the code points next to every non-ASCII vocabulary character), <=4 (quick) / <=5 (thorough) over one representative per token class, every string of <=3 (quick) / <=4 (thorough) chars over the keyword alphabet, the keyword neighbourhood (prefixes, one character deleted / substituted / inserted, call suffixes), every function name with 0..4 arguments of assorted magnitudes, nesting families up to 256 chars; then aggregate stress lists (2..60 arguments repeating a few values that are equal or adjacent in one representation only: 2^53 / 2^53+1 / 2^53.0, 0 / 0.0 / -0.0 / NaN, 2 / 2.00), random well-formed trees over boundary operands, token-level near-miss mutants and raw Unicode strings. Inputs containing '@' are run against the placeholder pool. distinct = distinct (evaluator,input,placeholder); non-trivial = the reference lexer yields >=2 tokens or the evaluator returned Ok. Oracle: the call returns Ok or Err (no panic; a process abort is detected by the supervisor).".into()
     }
     fn assumptions(&self) -> Vec<String> {
         vec!["a step-budget hit (possible hang) is counted as excluded here and reported by C02".into(), "stack depth: shard threads have 16 MiB stacks".into()]
@@ -218,6 +244,7 @@ impl Prop for C01Prop {
         let cl = tier.pick(3, 4) as u32;
         v.push(Sub { name: "chars", kind: SubKind::Enum { count: 5 * seq_space(char_alphabet().len() as u64, cl) } });
         v.push(Sub { name: "keywords", kind: SubKind::Enum { count: 5 * keyword_neighbourhood().len() as u64 } });
+        v.push(Sub { name: "arity", kind: SubKind::Enum { count: 5 * arity_cases().len() as u64 } });
         v.push(Sub { name: "deep", kind: SubKind::Enum { count: 60 * 37 } });
         v.push(Sub { name: "tree", kind: SubKind::Random { cases: tier.pick(400_000, 20_000_000), len: 160 } });
         v.push(Sub { name: "mutant", kind: SubKind::Random { cases: tier.pick(400_000, 20_000_000), len: 160 } });
@@ -254,6 +281,11 @@ impl Prop for C01Prop {
                 Some(Case::new(ev, k[(idx / 5) as usize % k.len()].clone(), Val::default_for(ev)))
             }
             "deep" => deep_family(idx).map(|(ev, s)| Case::new(ev, s, Val::default_for(ev))),
+            "arity" => {
+                let k = arity_cases();
+                let ev = Ev::ALL[(idx % 5) as usize];
+                Some(Case::new(ev, k[(idx / 5) as usize % k.len()].clone(), Val::default_for(ev)))
+            }
             _ => None,
         }
     }
